@@ -36,7 +36,7 @@ ASSUMPTIONS = [
     "the two pad bytes of the undocumented AT5 outer header are not 'covered bytes' and are not corrupted",
     "the exhaustive 1..2-byte comparison of calculate() is a plain function comparison, not simulation; the 3-byte enumeration and the induction on length of the property text are not reproduced",
 ]
-PROBES = ["c06.single_bit", "c06.double_bit", "c06.burst", "c06.check_bytes_only", "c06.after_intact_original", "c06.special_register_frame", "c06.intact_special_register", "c06.prefix_valued_address", "c06.in_prefix", "c06.in_length", "c06.in_crc", "c06.in_payload", "c06.waited_for_bytes", "c06.function_audit"]
+PROBES = ["c06.single_bit", "c06.double_bit", "c06.burst", "c06.check_bytes_only", "c06.after_intact_original", "c06.special_register_frame", "c06.intact_special_register", "c06.prefix_valued_address", "c06.prefix_like_payload", "c06.in_prefix", "c06.in_length", "c06.in_crc", "c06.in_payload", "c06.waited_for_bytes", "c06.function_audit"]
 EXHAUSTIVE = True
 TRUSTED_BASE = ["ref/crc.py (bitwise CRC-16/MODBUS)", "ref/wire4.py, ref/wire5.py (framing)"]
 
@@ -146,6 +146,10 @@ def _special_frames(gen: int):
     pay = bytes(rng.randrange(256) for _ in range(12))
     for (to, frm) in ((0x55, w.ADDR_CONSOLE), (0xAA, w.ADDR_CONSOLE), (0x55, 0x55), (w.ADDR_CLIENT, 0xAA)):
         out.append(("addr%02x%02x" % (to, frm), w.frame(to, frm, 0x31, types[0], pay)))
+    # prefix-like byte runs inside the covered bytes (a name of three 'U's followed by its padding; the redundant-byte rule of
+    # the AT5 document, 55 55 55 00, is not applied by this framing: every byte between address and check bytes counts)
+    for name, body in (("stuff00", b"\x01\x55\x55\x55\x00\x02"), ("stuffaa", b"\x55\x55\x55\xaa\x80\xb0"), ("stuffab", b"\x03\x55\x55\x55\xab\x00\x00")):
+        out.append(("pre" + name, w.frame(w.ADDR_CLIENT, w.ADDR_CONSOLE, 0x32, types[0], body + pay[:3])))
     _special_cache[gen] = out
     return _special_cache[gen]
 
@@ -312,6 +316,8 @@ def execute(sc: dict) -> dict:
         probes["c06.special_register_frame"] = 1
     if str(info.get("kind", "")).startswith("unknown:addr"):
         probes["c06.prefix_valued_address"] = 1
+    if str(info.get("kind", "")).startswith("unknown:pre"):
+        probes["c06.prefix_like_payload"] = 1
     hl = 8 if gen == 4 else 20
     pre = 2 if gen == 4 else 14
     for b in info.get("bits", []):
